@@ -35,7 +35,7 @@ def norm(t):
 
 def subst(node, env):
     if isinstance(node, tuple):
-        if len(node) == 2 and node[0] == 'id' and node[1] in env:
+        if len(node) == 2 and node[0] == 'id' and isinstance(node[1], str) and node[1] in env:
             return env[node[1]]
         return tuple(subst(x, env) for x in node)
     if isinstance(node, list):
@@ -147,6 +147,11 @@ class Lower:
 
     def ids_loops(self, st):
         """for (auto iter = first; iter != last; ++iter) { for (auto type_iter = iter->type_id_begin(); type_iter != iter->type_id_end(); ++type_iter) BODY }"""
+        # the names of the two loop variables are free
+        if (st[1] and st[1][0] == 'decl' and len(st[1][2]) == 1 and st[1][2][0][1] == ('id', 'first') and st[1][2][0][0] != 'iter'
+                and "('id', 'iter')" not in repr(st)):
+            x = st[1][2][0][0]
+            st = (st[0], ('decl', st[1][1], [('iter', ('id', 'first'))])) + tuple(subst(y, {x: ('id', 'iter')}) for y in st[2:])
         want_outer = (('decl', 'auto', [('iter', ('id', 'first'))]), ('bin', '!=', ('id', 'iter'), ('id', 'last')), ('un', '++', ('id', 'iter')))
         if (st[1], st[2], st[3]) != want_outer:
             self.bad('outer loop header is not `for (auto iter = first; iter != last; ++iter)`', st[:4])
@@ -158,6 +163,10 @@ class Lower:
         if len(ob) != 1 or ob[0][0] != 'for':
             self.bad('the outer loop body is not exactly the loop over the type ids', st[4])
         inner = ob[0]
+        if (inner[1] and inner[1][0] == 'decl' and len(inner[1][2]) == 1 and inner[1][2][0][0] != 'type_iter'
+                and inner[1][2][0][1] == ('call', ('member', ('id', 'iter'), 'type_id_begin', True), []) and "('id', 'type_iter')" not in repr(inner)):
+            y = inner[1][2][0][0]
+            inner = (inner[0], ('decl', inner[1][1], [('type_iter', inner[1][2][0][1])])) + tuple(subst(z, {y: ('id', 'type_iter')}) for z in inner[2:])
         tb = ('call', ('member', ('id', 'iter'), 'type_id_begin', True), [])
         te = ('call', ('member', ('id', 'iter'), 'type_id_end', True), [])
         want_inner = (('decl', 'auto', [('type_iter', tb)]), ('bin', '!=', ('id', 'type_iter'), te), ('un', '++', ('id', 'type_iter')))
@@ -256,6 +265,26 @@ def main():
                 raise mc.Unsupported('%s::dynamic_vptr: parameter list changed: %s' % (fname, params))
             ast = mc.parse_function_body(body, ('has_facet',))
             st = [x for x in ast[1] if x != ('using',)]
+            # T x = E; if constexpr (c) return vptrs[A]; else return vptrs[B];
+            #    is    auto index = E; if constexpr (c) index = A[x := index]; else index = B[x := index]; return vptrs[index];
+            #    (an assignment index = index dropped)
+            if (fname == 'vptr_vector' and len(st) == 2 and st[0][0] == 'decl' and len(st[0][2]) == 1 and st[0][2][0][1] is not None
+                    and st[1][0] == 'if' and st[1][1] and st[1][4] is not None):
+                x = st[0][2][0][0]
+
+                def ret_index(b):
+                    b = [y for y in (b[1] if b[0] == 'block' else [b]) if y != ('using',)]
+                    if len(b) == 1 and b[0][0] == 'return' and b[0][1] is not None and b[0][1][0] == 'index' and b[0][1][1] == ('id', 'vptrs'):
+                        return mc._subst_ids(b[0][1][2], {x: ('id', 'index')})
+                    return None
+                A, B = ret_index(st[1][3]), ret_index(st[1][4])
+                if A is not None and B is not None and (x == 'index' or "('id', 'index')" not in repr(st)):
+                    def asg(e):
+                        return ('block', [] if e == ('id', 'index') else [('expr', ('assign', '=', ('id', 'index'), e))])
+                    th, el = asg(A), asg(B)
+                    st = [('decl', 'auto', [('index', st[0][2][0][1])]),
+                          ('if', True, st[1][2], th, el if el[1] else None),
+                          ('return', ('index', ('id', 'vptrs'), ('id', 'index')))]
             if not st or st[-1][0] != 'return' or st[-1][1] is None:
                 raise mc.Unsupported('%s::dynamic_vptr: does not end with a return' % fname)
             lw = Lower(fname + '::dynamic_vptr')
